@@ -357,7 +357,10 @@ def legendre(ctx, n, x, **kwargs):
                 return x
             mag = ctx.mag(x)
             if mag < -2*ctx.prec-10:
-                return x
+                # P_n(x) = P_n'(0)*x + O(x^3) and P_n'(0) = m*P_{m-1}(0),
+                # where m is the degree of the polynomial
+                m = n if n >= 0 else -n-1
+                return x * (m * ctx.legendre(m-1, 0))
             if mag < -5:
                 ctx.prec += -mag
     return ctx.hyp2f1(-n,n+1,1,(1-x)/2, **kwargs)
